@@ -133,6 +133,15 @@ fn jobs() -> usize {
 
 /// Worker side: execute runs start, start+step, ... (count of them at most, until the
 /// deadline), printing one JSON line per run.
+/// Announce what the run is about to do (flushed immediately).  If the process dies
+/// before the run reports, the parent attaches the last note to the abort it records.
+pub fn note(features: &[String], detail: &str) {
+    let out = std::io::stdout();
+    let mut lock = out.lock();
+    let _ = writeln!(lock, "NOTE {}", json!({"features": features, "detail": detail}));
+    let _ = lock.flush();
+}
+
 pub type CandFn = fn(&Value, &Violation) -> Vec<Value>;
 
 pub fn worker_main(spec: &CheckSpec, run: RunFn, cands: CandFn, tier: Tier, seed: u64, start: u64, step: u64, count: u64, secs: u64) {
@@ -147,6 +156,11 @@ pub fn worker_main(spec: &CheckSpec, run: RunFn, cands: CandFn, tier: Tier, seed
             break;
         }
         let rs = run_seed(seed, spec.prop, i);
+        {
+            let mut lock = out.lock();
+            let _ = writeln!(lock, "BEGIN {} {}", i, rs);
+            let _ = lock.flush();
+        }
         let mut r = run(spec.prop, tier, rs, &Value::Null);
         if !gate && !r.violations.is_empty() && shrunk < 6 {
             // minimise before reporting (bounded), keeping one violation per class
@@ -181,66 +195,118 @@ struct Merged {
     samples: Vec<Value>,
 }
 
+struct WorkerResult {
+    lines: Vec<Value>,
+    done: bool,
+    ok: bool,
+    status: String,
+    errtail: Vec<String>,
+    /// (run index, run seed, last NOTE) of a run that began and never reported
+    pending: Option<(u64, u64, Option<Value>)>,
+}
+
+fn run_worker(exe: &Path, prop: &str, tier: Tier, seed: u64, start: u64, step: u64, count: u64, secs: u64, gate: bool) -> Result<WorkerResult, String> {
+    let mut child = Command::new(exe)
+        .args(["worker", prop, tier.name(), &seed.to_string(), &start.to_string(), &step.to_string(), &count.to_string(), &secs.to_string()])
+        .env("QESIM_GATE", if gate { "1" } else { "0" })
+        .stdout(Stdio::piped())
+        .stderr(Stdio::piped())
+        .spawn()
+        .map_err(|e| format!("cannot spawn worker: {e}"))?;
+    let stdout = child.stdout.take().unwrap();
+    let stderr = child.stderr.take().unwrap();
+    let eh = std::thread::spawn(move || {
+        let mut tail: Vec<String> = Vec::new();
+        for l in BufReader::new(stderr).lines().map_while(Result::ok) {
+            tail.push(l);
+            if tail.len() > 30 {
+                tail.remove(0);
+            }
+        }
+        tail
+    });
+    let mut lines = Vec::new();
+    let mut done = false;
+    let mut pending: Option<(u64, u64, Option<Value>)> = None;
+    for l in BufReader::new(stdout).lines().map_while(Result::ok) {
+        if let Some(rest) = l.strip_prefix("RUN ") {
+            if let Ok(v) = serde_json::from_str::<Value>(rest) {
+                lines.push(v);
+            }
+            pending = None;
+        } else if let Some(rest) = l.strip_prefix("BEGIN ") {
+            let mut it = rest.split_whitespace();
+            let i = it.next().and_then(|x| x.parse().ok()).unwrap_or(0);
+            let rs = it.next().and_then(|x| x.parse().ok()).unwrap_or(0);
+            pending = Some((i, rs, None));
+        } else if let Some(rest) = l.strip_prefix("NOTE ") {
+            if let Some(p) = pending.as_mut() {
+                p.2 = serde_json::from_str::<Value>(rest).ok();
+            }
+        } else if l.starts_with("DONE ") {
+            done = true;
+        }
+    }
+    let status = child.wait();
+    let ok = status.as_ref().map(|s| s.success()).unwrap_or(false);
+    Ok(WorkerResult { lines, done, ok, status: format!("{status:?}"), errtail: eh.join().unwrap_or_default(), pending })
+}
+
 fn spawn_workers(prop: &str, tier: Tier, seed: u64, total: u64, njobs: usize, secs: u64, gate: bool) -> Result<Merged, String> {
     let exe = std::env::current_exe().map_err(|e| e.to_string())?;
     let njobs = njobs.max(1).min(total.max(1) as usize);
-    let mut children = Vec::new();
+    let mut handles = Vec::new();
     for j in 0..njobs {
         let count = (total + njobs as u64 - 1 - j as u64) / njobs as u64;
         if count == 0 {
             continue;
         }
-        let child = Command::new(&exe)
-            .args(["worker", prop, tier.name(), &seed.to_string(), &j.to_string(), &njobs.to_string(), &count.to_string(), &secs.to_string()])
-            .env("QESIM_GATE", if gate { "1" } else { "0" })
-            .stdout(Stdio::piped())
-            .stderr(Stdio::piped())
-            .spawn()
-            .map_err(|e| format!("cannot spawn worker: {e}"))?;
-        children.push((j, child));
+        let exe = exe.clone();
+        let prop = prop.to_string();
+        handles.push(std::thread::spawn(move || -> Result<(Vec<Value>, Vec<(u64, u64, Violation)>), String> {
+            // A worker that dies (abort, stack overflow, kill) inside a run is not a harness
+            // error: the death is attributed to that run as a violation and the remaining
+            // runs continue in a fresh process.
+            let mut all_lines = Vec::new();
+            let mut deaths = Vec::new();
+            let mut start = j as u64;
+            let mut left = count;
+            let step = njobs as u64;
+            let mut respawns = 0;
+            while left > 0 {
+                let r = run_worker(&exe, &prop, tier, seed, start, step, left, secs, gate)?;
+                let got = r.lines.len() as u64;
+                all_lines.extend(r.lines);
+                if r.ok && r.done {
+                    break;
+                }
+                match r.pending {
+                    Some((i, rs, note)) if respawns < 40 => {
+                        respawns += 1;
+                        let mut features: Vec<String> = note.as_ref().and_then(|n| n["features"].as_array().map(|a| a.iter().filter_map(|x| x.as_str().map(String::from)).collect())).unwrap_or_default();
+                        features.push("process-died".to_string());
+                        let detail = format!("the process executing run {i} died ({}); last note: {}; stderr: {}", r.status, note.as_ref().map(|n| n["detail"].as_str().unwrap_or("").to_string()).unwrap_or_default(), r.errtail.last().cloned().unwrap_or_default());
+                        deaths.push((i, rs, Violation { clause: "no-process-death".into(), symptom: "process-died".into(), features, detail, overrides: json!({}), context: json!({"status": r.status, "stderr_tail": r.errtail}) }));
+                        // continue after the fatal run
+                        let consumed = got + 1;
+                        start = i + step;
+                        left = left.saturating_sub(consumed);
+                    }
+                    _ => {
+                        return Err(format!("worker {j} ended abnormally ({}) after {} runs with no run in progress; stderr tail:\n{}", r.status, got, r.errtail.join("\n")));
+                    }
+                }
+            }
+            Ok((all_lines, deaths))
+        }));
     }
     let mut m = Merged { runs: 0, sim_ms: 0, counters: BTreeMap::new(), cases: BTreeSet::new(), log_hashes: BTreeMap::new(), violations: Vec::new(), samples: Vec::new() };
-    let mut handles = Vec::new();
-    for (j, mut child) in children {
-        let stdout = child.stdout.take().unwrap();
-        let stderr = child.stderr.take().unwrap();
-        let eh = std::thread::spawn(move || {
-            let mut tail: Vec<String> = Vec::new();
-            for l in BufReader::new(stderr).lines().map_while(Result::ok) {
-                tail.push(l);
-                if tail.len() > 40 {
-                    tail.remove(0);
-                }
-            }
-            tail
-        });
-        let h = std::thread::spawn(move || {
-            let mut lines = Vec::new();
-            let mut done = false;
-            for l in BufReader::new(stdout).lines().map_while(Result::ok) {
-                if let Some(rest) = l.strip_prefix("RUN ") {
-                    if let Ok(v) = serde_json::from_str::<Value>(rest) {
-                        lines.push(v);
-                    }
-                } else if l.starts_with("DONE ") {
-                    done = true;
-                }
-            }
-            let status = child.wait();
-            (j, lines, done, status, eh.join().unwrap_or_default())
-        });
-        handles.push(h);
-    }
     for h in handles {
-        let (j, lines, done, status, errtail) = h.join().map_err(|_| "worker reader panicked".to_string())?;
-        let ok = status.as_ref().map(|s| s.success()).unwrap_or(false);
-        if !ok || !done {
-            return Err(format!(
-                "worker {j} ended abnormally ({:?}) after {} runs; stderr tail:\n{}",
-                status,
-                lines.len(),
-                errtail.join("\n")
-            ));
+        let (lines, deaths) = h.join().map_err(|_| "worker reader panicked".to_string())??;
+        for d in deaths {
+            m.runs += 1;
+            *m.counters.entry("n.process_deaths".into()).or_insert(0) += 1;
+            m.violations.push(d);
         }
         for v in lines {
             m.runs += 1;
@@ -472,6 +538,9 @@ pub fn check_main(spec: &CheckSpec, tier: Tier) -> i32 {
         let st = Command::new(&exe).args(["replay", spec.prop, path.to_str().unwrap()]).stdout(Stdio::null()).stderr(Stdio::null()).status();
         match st.map(|s| s.code()) {
             Ok(Some(1)) => {}
+            // the replay process itself died: that IS the reproduction of a process death
+            Ok(None) if v.symptom == "process-died" => {}
+            Ok(Some(c)) if v.symptom == "process-died" && c != 0 && c != 2 => {}
             other => {
                 println!("warning: replay of {} did not reproduce in a fresh process ({:?}); counted as unreproduced", path.display(), other);
                 unreproduced += 1;
